@@ -161,7 +161,17 @@ def parseModule (ws : List String) : ModuleM :=
     dataCount := (get "DC").head?.bind String.toNat?,
     datas := (get "DA").filterMap parseData,
     code := parseCodeGroups (get "CO"),
-    names := if has "NM" then some (parseNames (get "NM")) else none }
+    names := if has "NM" then
+        let imps := (get "IM").filterMap parseImport
+        let cnt := fun (k : String) => (imps.filter fun i => match i.2.2, k with
+          | .func _, "f" => true | .table _, "t" => true | .mem _, "m" => true | .global _, "g" => true
+          | _, _ => false).length
+        let nF := cnt "f" + ((get "FN").filterMap String.toNat?).length
+        let n1 := appliedNames nF (parseNames (get "NM"))
+        some (inRangeNames nF (get "T").length (cnt "t" + ((get "TB").filterMap parseTableTy).length)
+          (cnt "m" + ((get "ME").filterMap parseMemTy).length) (cnt "g" + ((get "GL").filterMap parseGlobal).length)
+          ((get "EL").filterMap parseElem).length ((get "DA").filterMap parseData).length n1)
+      else none }
 where
   sectionsBy (ws : List String) (tags : List String) : List (String × List String) :=
     let rec go (ws : List String) (cur : String) (acc : List String) (out : List (String × List String)) :=
